@@ -44,6 +44,15 @@ def records(tier):
             recs.append({"genome": "A", "genes": [dict(W.place(a, offs[0]), lt=CASE_TAGS[0]), dict(W.place(b, offs[1]), lt=CASE_TAGS[1])], "fcs": []})
     for a, b, c in itertools.product(menu[:3], repeat=3):
         recs.append({"genome": "A", "genes": [dict(W.place(a, 1), lt=CASE_TAGS[1]), dict(W.place(b, 14), lt=CASE_TAGS[0]), dict(W.place(c, 27), lt=CASE_TAGS[2])], "fcs": []})
+    # look-alike tag families: tags that differ only in zero padding, tags that are prefixes of one another, tags whose
+    # numeric and alphabetic orders differ, tags with separators - all different tags
+    for fam in (("b001", "b0001", "b01"), ("lt1", "lt10", "lt2"), ("x_9", "x_10", "x-9"), ("t", "t1", "t1a")):
+        for a, b in itertools.product(menu[:3], repeat=2):
+            for t1, t2 in itertools.permutations(fam, 2):
+                recs.append({"genome": "A", "genes": [dict(W.place(a, W.ARR2[0][0]), lt=t1), dict(W.place(b, W.ARR2[0][1]), lt=t2)], "fcs": []})
+        for a in menu[:2]:
+            for perm in itertools.permutations(fam):
+                recs.append({"genome": "A", "genes": [dict(W.place(a, 1), lt=perm[0]), dict(W.place(menu[2], 14), lt=perm[1]), dict(W.place(menu[2], 27), lt=perm[2])], "fcs": []})
     out = []
     for rec in recs:
         for flavour in W.FLAVOURS:
